@@ -75,6 +75,9 @@ def build_source(cfg):
                              cfg.get('mid'), style, eng)
     src += class_src('R', [('n', type_src(shape, 'N'), None), ('my_val', 'int', '0'), ('when', 'datetime', 'WHEN0'),
                            ('dflt', 'int', '5')], cfg.get('root'), style, eng)
+    if str(cfg.get('history', 'none')).startswith('other_root'):
+        # a second root class that reaches the same nested class directly, with its own Meta
+        src += class_src('R2', [('n', 'N', None), ('my_val', 'int', '0')], cfg.get('other'), style, eng)
     return src
 
 
@@ -101,6 +104,55 @@ def unwrap(shape, v, get_inner):
     return v
 
 
+class MyDict(dict):
+    pass
+
+
+def retype(v, kind):
+    """Rebuild a JSON document with every dict replaced by a dict subclass."""
+    import collections
+    if isinstance(v, dict):
+        items = [(k, retype(x, kind)) for k, x in v.items()]
+        if kind == 'OrderedDict':
+            return collections.OrderedDict(items)
+        if kind == 'defaultdict':
+            d = collections.defaultdict(lambda: None)
+            d.update(items)
+            return d
+        if kind == 'subclass':
+            return MyDict(items)
+        return dict(items)
+    if isinstance(v, list):
+        return [retype(x, kind) for x in v]
+    return v
+
+
+def run_history(cfg, ns, out):
+    """Uses of the nested class BEFORE the root is used for the first time."""
+    from dataclass_wizard import fromdict, asdict
+    h = cfg.get('history', 'none')
+    if h == 'none':
+        return
+    N = ns['N']
+    kw = dict(my_val=7, when=ns['WHEN'], dflt=5, a3=3, b4=4)
+    if cfg.get('catchall'):
+        kw['extra'] = {'zzz': 1}
+    if cfg['probe'] == 'union':
+        kw['u'] = ns['UB'](x=1)
+    try:
+        if h == 'nested_dump':
+            asdict(N(**kw))
+        elif h == 'nested_load':
+            fromdict(N, {'my_val': 1})
+        elif h == 'other_root_dump':
+            asdict(ns['R2'](n=N(**kw), my_val=7))
+        elif h == 'other_root_load':
+            fromdict(ns['R2'], {'n': {'my_val': 1}})
+        out['history'] = 'ok'
+    except BaseException as e:  # noqa
+        out['history'] = err_info(e)
+
+
 def main():
     cfg = json.load(sys.stdin)
     out = {'setup': None, 'results': []}
@@ -116,6 +168,7 @@ def main():
     from dataclass_wizard import fromdict, asdict
     R, N = ns['R'], ns['N']
     shape = cfg['shape']
+    run_history(cfg, ns, out)
     if cfg['engine'] == 'dump':
         kw = dict(my_val=7, when=ns['WHEN'], dflt=5, a3=3, b4=4)
         if cfg.get('catchall'):
@@ -137,7 +190,7 @@ def main():
             try:
                 full = {'n': wrap(shape, doc, lambda k, inner: {'inner': inner})}
                 # tuples arrive as lists in JSON documents
-                full = json.loads(json.dumps(full))
+                full = retype(json.loads(json.dumps(full)), cfg.get('doc_type', 'dict'))
                 r = fromdict(R, full)
                 nested = unwrap(shape, r.n, lambda m: m.inner)
                 out['results'].append({'ok': canon(nested), 'is_N': type(nested) is N})
